@@ -49,6 +49,14 @@ func MatchCond(pat, s string) bool {
 
 // swapSym: the operand-swapped spelling of a symmetric predicate call (bytes.Equal).
 func swapSym(pat string) string {
+	// (0 == a.Cmp(b)) is symmetric in a and b too
+	for _, eq := range []string{"(0 == big.(*Int).Cmp(", "(0 == strings.Compare("} {
+		if strings.HasPrefix(pat, eq) && strings.HasSuffix(pat, "))") {
+			if sw := swapCallArgs(pat[len("(0 == ") : len(pat)-1]); sw != "" {
+				return "(0 == " + sw + ")"
+			}
+		}
+	}
 	const pre = "bytes.Equal("
 	if !strings.HasPrefix(pat, pre) || !strings.HasSuffix(pat, ")") {
 		return ""
